@@ -98,32 +98,40 @@ func newConn(ws websocketConn) net.Conn {
 // using SetDeadline and SetReadDeadline on the websocket.
 func (c *websocketTransport) Read(b []byte) (n int, err error) {
 	var opCode int
-	if c.reader == nil {
-		// New message
-		var r io.Reader
-		for {
-			if opCode, r, err = c.socket.NextReader(); err != nil {
-				return
+	for {
+		if c.reader == nil {
+			// New message
+			var r io.Reader
+			for {
+				if opCode, r, err = c.socket.NextReader(); err != nil {
+					return
+				}
+
+				if opCode != websocket.BinaryMessage && opCode != websocket.TextMessage {
+					continue
+				}
+
+				c.reader = r
+				break
 			}
+		}
 
-			if opCode != websocket.BinaryMessage && opCode != websocket.TextMessage {
-				continue
+		// Read from the reader
+		n, err = c.reader.Read(b)
+		if err != nil {
+			if err == io.EOF {
+				c.reader = nil
+				err = nil
+
+				// The message ended without yielding any data (e.g. an empty message), move on to
+				// the next one instead of returning (0, nil) which buffered readers count as no progress.
+				if n == 0 && len(b) > 0 {
+					continue
+				}
 			}
-
-			c.reader = r
-			break
 		}
+		return
 	}
-
-	// Read from the reader
-	n, err = c.reader.Read(b)
-	if err != nil {
-		if err == io.EOF {
-			c.reader = nil
-			err = nil
-		}
-	}
-	return
 }
 
 // Write writes data to the connection. It is possible to allow writer to time
